@@ -113,6 +113,22 @@ func (w *World) range64(r *Rng) (uint64, uint64) {
 }
 
 func vals64(h uint32, key uint16, shape, n int, seed uint64) []uint64 {
+	if shape == 7 {
+		// one value in each of n consecutive buckets: long bucket tables
+		if n > 400 {
+			n = 400
+		}
+		out := make([]uint64, 0, n)
+		lo := uint64(key)<<16 | (seed & 0xFFFF)
+		for i := 0; i < n; i++ {
+			hh := uint64(h) + uint64(i)
+			if hh > 0xFFFFFFFF {
+				break
+			}
+			out = append(out, hh<<32|lo)
+		}
+		return out
+	}
 	v32 := Vals(key, shape, n, seed)
 	out := make([]uint64, len(v32))
 	r := NewRng(seed ^ 0x5151)
@@ -471,7 +487,11 @@ func init() {
 			if n > 20000 {
 				n = 20000
 			}
-			return Step{S: []int{w.slot64(r)}, A: []uint64{uint64(w.X.bucketKey(r)), uint64(w.key(r)), uint64(r.Intn(numShapes)), uint64(n), r.U64()}}, true
+			shape := r.Intn(numShapes)
+			if shape == 7 && !r.Chance(1, 3) {
+				shape = 0
+			}
+			return Step{S: []int{w.slot64(r)}, A: []uint64{uint64(w.X.bucketKey(r)), uint64(w.key(r)), uint64(shape), uint64(n), r.U64()}}, true
 		},
 		valid: func(w *World, st *Step) bool { return slots64OK(w, st, 1, 5) },
 		exec: func(w *World, st *Step) {
